@@ -62,6 +62,9 @@ impl UCICommand {
         }
 
         let value_idx = args.iter().position(|&arg| arg == "value");
+        if value_idx.is_some_and(|idx| idx < name_idx) {
+            return Err("The value was given before the name in setoption!".to_string());
+        }
         let value = match value_idx {
             Some(idx) if args.len() > idx => Some(args[idx + 1..].join(" ").to_lowercase()),
             Some(_) => {
@@ -79,7 +82,9 @@ impl UCICommand {
             )
             .to_lowercase();
 
-        assert!(!name.is_empty(), "Name should not be empty!");
+        if name.is_empty() {
+            return Err("No name provided to setoption!".to_string());
+        }
 
         Ok(Self::SetOption { name, value })
     }
